@@ -138,6 +138,11 @@ def handlers : List (String × Handler) := [
       | some root, some r => encRes (resolveRef root r)
       | _, _ => "err args"
     | _ => "err args"),
+  ("res.isidref", fun
+    | [s] => match s.str? with
+      | some s => "ok " ++ encodeStr (if isIdRef s then ['1'] else ['0'])
+      | none => "err args"
+    | _ => "err args"),
   ("res.stem", fun
     | [s] => match s.str? with
       | some s => "ok " ++ encodeStr (stem s)
